@@ -436,6 +436,8 @@ func checkC05(c *Ctx) Meta {
 	c.Rule("C05-LOOKUP", "SignHash/SignMessage look the signing key up under the address derived from the requested public key and sign the caller's digest (the hash argument, or HashH of the message)", 2)
 	c.Rule("C05-BIND", "the private key cached for an address is re-derived from that address's own (branch, index): the external test selects the external branch key; the recorded path of a new address is the path its key was derived with", 3)
 	c.Rule("C05-GATE", "signing happens only while unlocked and only with a non-nil private key; an unknown key fails before signing", 3)
+	c.Rule("C05-LOCKSTATE", "the lock state is one state for the whole wallet: keystores are created/imported only under the passphrase the existing keystores accept, so a failed Unlock cannot leave some keystores signing while the wallet reports locked", 2)
+	checkSamePassphraseGates(c, "C05-LOCKSTATE")
 	c.Rule("C05-KEEPER", "the keeper signs with the public key of the workspace looked up by the requested space id", 1)
 	li := keystoreLocksets(c)
 	_ = li
